@@ -680,10 +680,10 @@ class Gen:
             self.stmts(f, ind + 1, depth - 1, r.randrange(1, 4), in_loop)
             f.emit("),", ind)
             self.stats["shape_seq"] += 1
-        elif k < 0.74 and self.p.markers:
+        elif k < 0.74 and self.repeatable():
             # the SAME literal written once more, at another place (with assemble_constants it lands in a constant block;
             # each writing line must still get its own TEAL line)
-            m = r.choice(sorted(self.p.markers))
+            m = r.choice(self.repeatable())
             kind = self.p.markers[m][2]
             src = f"pt.Int({m})" if kind == "int" else f'pt.Bytes("mk{m}")'
             self.p.repeats.setdefault(m, []).append((f.name, len(f.lines) + 1))
@@ -744,6 +744,12 @@ class Gen:
         src, _ = self.marker(f, len(f.lines) + 1, "int")
         f.emit(f"x + {src},", 2)
         f.emit(")", 1)
+
+    def repeatable(self):
+        """markers that may be written a second time: not those inside plain Python helper functions -- a helper called from several
+        places yields several TEAL lines attributed to ITS line, so 'as many loads as writing places' would no longer mean one load each"""
+        inside_helpers = {info[2] for _n, info in list(self.p.helpers) + list(self.p.twins)}
+        return sorted(m for m in self.p.markers if m not in inside_helpers)
 
     def helper(self, f: SrcFile, name: str):
         """a plain Python function in `f` that writes a marker: attribution must be to `f`, not to its caller"""
